@@ -187,4 +187,29 @@ ENTRIES.update({
           "quantifies over all flag histories; the run raises it before and during planning). Trusted base as for C10/C11.",
  },
 })
+ENTRIES.update({
+ "C19": {
+  "text": "[A] proofs (Props/C19) at the level of the YAML tree the library hands to the reader, for all trees and all leaf contracts: what "
+          "to_yaml prints reads back with the same geometry, sign corrections and dof and with offsets at the printed precision (5-DOF: "
+          "joint-6 sign reads 0); every file of the documented shape (lengths as integers or reals; offsets as integers, reals, plain "
+          "numeric strings or deg(..); arrays of five or six entries; arrays absent; dof at top level, nested or absent; keys in any order, "
+          "other keys allowed) parses to the expected value; the reader is total and every failure is one of ParseError / MissingField "
+          "(in the order a1..c4) / InvalidLength, with the precedence of the checks. Runs send the real file through from_yaml_file "
+          "together with yaml-rust2's own tree of the same text, compare with the model and check round trip, variants and no-panic.",
+  "note": "Trusted: YAML lexing (yaml-rust2) and Rust's float printing/parsing enter as leaf contracts (LenLeaf/OffLeaf) and are exercised by "
+          "the run, which ships the library's tree and parser results with every case. File I/O errors (non-UTF-8) are compared as IoError.",
+ },
+ "C20": {
+  "text": "[A] proofs (Props/C20) at the level of the XML element tree: for every parameter set, axis signs and limits and each of the 32 layout "
+          "combinations (with the stated side conditions: c2 != 0 when b != 0 sits on joint 3; a2 != 0 and c3 != 0 when c3 sits on joint 4) "
+          "populate returns exactly the parameters, signs and limits; the result depends on the joint list only through first-occurrence "
+          "lookup, hence is invariant under permutation of declarations, an identical second copy, wrapping in non-joint elements and "
+          "joint-free siblings; conflicting duplicates, missing joints, missing root and unreadable origins are errors; a joint without "
+          "readable limits has from = to = 0 (unconstrained by C07); axis -> sign rule; the documented decorations simplify to joint1..6 "
+          "(kernel-evaluated). Runs generate descriptions as text, send sxd-document's DOM with the case, compare with the model and "
+          "check parameters/signs/limits, the unconstrained clause on the solver built from the result, and error/no-panic cases.",
+  "note": "Trusted: XML parsing (sxd-document), regex (the three regular expressions are replaced by a hand-written equivalent tied by "
+          "differential testing on generated ASCII names), Rust's float parser (parse results travel with the attributes).",
+ },
+})
 NOT_APPLICABLE = {}
